@@ -234,6 +234,8 @@ def gen_c10(rng: random.Random, tier: str) -> Plan:
         if d is not None:
             ops.append(d)
     n_ops = rng.randint(6, 14) if tier == "quick" else rng.randint(8, 30)
+    if r0.get("kind") == "rg" and r0["rg"].get("n", 0) > 100:
+        n_ops = min(n_ops, 12)  # 130-variable circuits: every reference recompilation costs a second
     bases = list(base_recipes)
     evid_names: set[str] = set()
     for _ in range(n_ops):
@@ -651,6 +653,8 @@ def gen_c19(rng: random.Random, tier: str) -> Plan:
                 "hash_seed": rng.getrandbits(60)}
 
     n_ops = rng.randint(5, 12) if tier == "quick" else rng.randint(8, 26)
+    if r0.get("kind") == "rg" and r0["rg"].get("n", 0) > 100:
+        n_ops = min(n_ops, 10)
     for _ in range(n_ops):
         r = rng.random()
         if r < 0.33:
